@@ -192,8 +192,13 @@ func (a *Act) callWithArgs(ctx *blockCtx, c *ssa.CallCommon, args []Val, fnv Val
 		// (transitively) may write is unknown afterwards
 		set := map[string]bool{}
 		sub := g.newAct(callee, a.depth+1)
+		g.modsSkipAlloc = true
+		defer func() { g.modsSkipAlloc = false }()
 		for _, bb := range callee.Blocks {
 			for _, ins := range bb.Instrs {
+				if st, ok := ins.(*ssa.Store); ok && rootIsLocalAlloc(st.Addr) {
+					continue // a write into the callee's own local variable is invisible to the caller
+				}
 				g.instrMods(sub, ins, set, a.depth+1)
 			}
 		}
@@ -957,6 +962,9 @@ func (g *Gen) instrMods(a *Act, ins ssa.Instruction, set map[string]bool, depth 
 		hv, _, _ := g.w.mapHeap(x.Map.Type().Underlying().(*types.Map))
 		set[hv] = true
 	case *ssa.Alloc:
+		if g.modsSkipAlloc {
+			return // only the caller-visible effect is wanted: fresh objects are not visible
+		}
 		elem := x.Type().(*types.Pointer).Elem()
 		if nt, ok := types.Unalias(elem).(*types.Named); ok {
 			if st, ok := nt.Underlying().(*types.Struct); ok {
@@ -969,6 +977,9 @@ func (g *Gen) instrMods(a *Act, ins ssa.Instruction, set map[string]bool, depth 
 		}
 		set[g.w.cellHeap(g.w.sortOf(elem))] = true
 	case *ssa.MakeMap:
+		if g.modsSkipAlloc {
+			return
+		}
 		hv, _, _ := g.w.mapHeap(x.Type().Underlying().(*types.Map))
 		set[hv] = true
 	case *ssa.Range:
@@ -1215,4 +1226,23 @@ func callName(c *ssa.CallCommon) string {
 		return b.Name()
 	}
 	return "dyn"
+}
+
+// rootIsLocalAlloc: the address is (a field / element of) a local variable of the function itself.
+func rootIsLocalAlloc(v ssa.Value) bool {
+	for {
+		switch x := v.(type) {
+		case *ssa.FieldAddr:
+			v = x.X
+		case *ssa.IndexAddr:
+			if _, isPtr := x.X.Type().Underlying().(*types.Pointer); !isPtr {
+				return false // element of a slice: the backing array may be shared
+			}
+			v = x.X
+		case *ssa.Alloc:
+			return true
+		default:
+			return false
+		}
+	}
 }
